@@ -1,5 +1,5 @@
 SPECIFICATION Spec
-CONSTANTS Onsets = {0, 1, 2}
+CONSTANTS Onsets = {0, 1, 3}
           Durs = {1, 3}
           Pitches = {0, 40}
           N = 2
